@@ -332,8 +332,12 @@ class StmtMixin:
                 self.ctx.oblige(self.path, kind, cl, t, node)
 
     def havoc(self, names, env, tag):
-        for n in sorted(names):
+        rebound = {n for n in names if not n.startswith("~")}
+        mutated = {n[1:] for n in names if n.startswith("~")}
+        for n in sorted(rebound | mutated):
             o = env.owner(n)
+            if o is not None and n not in rebound and isinstance(o.vars[n], VRef):
+                continue  # in-place mutation of a heap object: the heap is havocked, not the variable
             if o is None:
                 continue
             cur = o.vars[n]
@@ -433,6 +437,7 @@ class StmtMixin:
         self.check_clauses(lc.invariant, e0, f"inv-init:{tag}", st)
         mod = self.E.assigned_names(st.body, self.closure_fx) | self.E.assigned_names([ast.Assign(targets=[st.target], value=ast.Constant(0))], {})
         target_names = self.E.assigned_names([ast.Assign(targets=[st.target], value=ast.Constant(0))], {})
+        target_names |= {"~" + x for x in target_names}
         self.heap.havoc_for_loop(lc, env, tag)
         self.havoc(mod - target_names, env, tag)
         # the length of a heap list may change inside the loop only if the loop leaves right after
